@@ -269,7 +269,7 @@ func probesFor(c caseT) []probe {
 		if wild {
 			path = path[:len(path)-1]
 		}
-		for _, pv := range []string{"v7", "x", "y"} { // a parameter value may equal a sibling literal
+		for _, pv := range []string{"v7", "x", "y", "X"} { // a parameter value may equal a sibling literal (or differ from it by case only)
 			conc := make([]string, len(path))
 			for i, s := range path {
 				if strings.HasPrefix(s, "{") {
@@ -292,6 +292,9 @@ func probesFor(c caseT) []probe {
 					sib := append([]string{}, conc...)
 					sib[len(sib)-1] = "zzz" // sibling literal
 					add(strings.Join(append([]string{host}, sib...), "/"))
+					up := append([]string{}, conc...) // same path, last segment in upper case: another URL
+					up[len(up)-1] = strings.ToUpper(up[len(up)-1])
+					add(strings.Join(append([]string{host}, up...), "/"))
 					if len(conc) > 1 {
 						sib2 := append([]string{}, conc...)
 						sib2[0] = "zzz"
